@@ -1,6 +1,75 @@
-"""C11 rules (placeholder: fail-closed until the rules are implemented)."""
-from ..loader import AnalysisError
+"""C11 - local pool: a task's process starts only after all its dependencies completed successfully."""
+import ast
+
+from ..index import walk_no_nested, loc
+from ..paths import RETURN, Explorer, State
+from .c13 import rule_exit_status
+from .localpool import FINAL, LOCAL, explore_task, scheduler_info, witness
 
 
 def run(ctx):
-    raise AnalysisError("rules for C11 not implemented yet")
+    fi, sem, outs, steps = explore_task(ctx)
+    construct = f"{fi.module.relpath}::{fi.qual}"
+    starts = [e for e in sem.events if e[0] == "start"]
+
+    r1 = ctx.rule("R1", "process start is dominated by wait-for-all-dependencies and the all-completed check", min_instances=2)
+    if not starts:
+        r1.violation(construct, "no process creation found in the task coroutine", fi.where)
+    n_dep_starts = 0
+    reported = set()
+    for _k, node, st, facts in starts:
+        if facts["deps_at_start"] == ("EMPTY",):
+            continue  # no dependencies on this path
+        n_dep_starts += 1
+        if not facts["waited_at_start"] and "wait" not in reported:
+            reported.add("wait")
+            why = st.facts.get("bad_wait")
+            r1.violation(construct + "::wait", "the process can start with dependencies without having waited for ALL of them to finish"
+                         + (f" ({why})" if why else ""), loc(node, fi.module), witness(st, fi))
+        if not facts["depcheck_at_start"] and "check" not in reported:
+            reported.add("check")
+            r1.violation(construct + "::check", "the process can start although no check established that every dependency is COMPLETED "
+                         "(a failed, killed or cancelled dependency does not stop the dependent)", loc(node, fi.module), witness(st, fi))
+    if n_dep_starts and "wait" not in reported:
+        r1.ok(construct + "::wait", f"{n_dep_starts} abstract start state(s) with dependencies: all after asyncio.wait(all deps, ALL_COMPLETED, no timeout)", fi.where)
+    if n_dep_starts and "check" not in reported:
+        r1.ok(construct + "::check", "all after the loop that lets only COMPLETED dependencies pass", fi.where)
+    if starts and not n_dep_starts:
+        r1.violation(construct, "no start state with dependencies was explored", fi.where)
+    # the check loop must not leave early without deciding (break) and must range over all deps
+    if sem.deps_rebound is not None:
+        r1.violation(construct + "::deps-rebound", f"the dependency list is rebound to `{ast.unparse(sem.deps_rebound)[:90]}`: "
+                     "ids dropped here are neither waited for nor checked", loc(sem.deps_rebound, fi.module))
+    elif not sem.dep_loops:
+        r1.violation(construct + "::loop", "no loop over all dependency ids found: dependency states are not examined one by one", fi.where)
+    for n in walk_no_nested(fi.node):
+        if isinstance(n, (ast.For, ast.AsyncFor)) and id(n) in sem.dep_loops:
+            brk = [b for b in ast.walk(n) if isinstance(b, ast.Break)]
+            r1.check(not brk, construct + "::loop", "dependency loop has no break",
+                     "the dependency loop can `break`: dependencies after the first are not examined", loc(n, fi.module))
+
+    r2 = ctx.rule("R2", "a task whose dependency did not complete ends in that dependency's (non-completed, final) state without starting")
+    inherit = [o for o in outs if o.kind == RETURN and not o.state.facts.get("started") and not o.state.facts.get("cause")]
+    if not inherit:
+        r2.violation(construct, "no path leaves the coroutine before starting the process: failed dependencies are never inherited", fi.where)
+    for o in inherit:
+        vals = o.state.vars.get(sem.own_state, frozenset())
+        if "COMPLETED" in vals or not vals <= FINAL:
+            r2.violation(construct + "::inherit", f"a task skipped because of its dependency ends as {'/'.join(sorted(vals))} "
+                         "(must be the dependency's failed/killed/cancelled state)", fi.where, witness(o.state, fi))
+            break
+    else:
+        if inherit:
+            r2.ok(construct + "::inherit", f"{len(inherit)} skip path(s): own state := dependency state within {sorted(FINAL - {'COMPLETED'})}", fi.where)
+    # the inherited value is the dependency's own state (failed after failure, cancelled after cancellation)
+    inh_ok = False
+    for n in walk_no_nested(fi.node):
+        if isinstance(n, ast.Assign) and ast.unparse(n.targets[0]) == sem.own_state:
+            vt = ast.unparse(n.value)
+            if any(vt == f"self.{sem.info['states']}[{v}]" for v in sem.dep_vars):
+                inh_ok = True
+    r2.check(inh_ok, construct + "::inherit-value", "own state is assigned from the examined dependency's state",
+             "the skipped task's state is not taken from the dependency that did not complete", fi.where)
+
+    r3 = ctx.rule("R3", "a dependency counts as completed only if its process exited with status 0")
+    rule_exit_status(ctx, r3, fi, sem, outs)
